@@ -1210,6 +1210,19 @@ def rule_no_keyed_collapse(ctx, chk, rule, only=None):
                 if only is not None and m not in only and m in KERNELS:
                     continue
                 for c in walk_no_nested_defs(f.node):
+                    # xs[xs.index(m): xs.index(m) + xs.count(m)]: first occurrence + number of occurrences is the run of equal values only
+                    # when they are ADJACENT
+                    if isinstance(c, ast.Subscript) and isinstance(c.slice, ast.Slice) and c.slice.lower is not None and c.slice.upper is not None \
+                            and any(isinstance(x, ast.Call) and isinstance(x.func, ast.Attribute) and x.func.attr == "count" for x in ast.walk(c.slice.upper)) \
+                            and (any(isinstance(x, ast.Call) and isinstance(x.func, ast.Attribute) and x.func.attr == "index" for x in ast.walk(c.slice.lower))
+                                 or isinstance(c.slice.lower, ast.Name)) and (cname, m, c.lineno) not in getattr(chk, "_groupby_seen", set()):
+                        seen = getattr(chk, "_groupby_seen", set())
+                        seen.add((cname, m, c.lineno))
+                        chk._groupby_seen = seen
+                        hits += 1
+                        chk.violation(rule, f.where(c), "%s.%s cuts `%s` out of a list by the first position of a value and the number of its occurrences: that is the set of equal "
+                                      "values only when they are adjacent - with another successor in between a wrong one is included and a right one dropped" % (cname, m, src(c)[:70]),
+                                      expected="a filter by equality", found=src(c)[:100], construct="%s.%s index/count slice" % (cname, m))
                     if isinstance(c, ast.Call) and call_name(c) in ("groupby", "itertools.groupby") and c.args:
                         a0 = c.args[0]
                         srt = isinstance(a0, ast.Call) and call_name(a0) == "sorted"
